@@ -344,6 +344,12 @@ def selected_thread():
     return _state.thread
 
 
+def string_to_argv(text):
+    """GDB splits a command argument the way a shell does: blanks separate, quotes and backslashes are removed."""
+    import shlex
+    return shlex.split(text, posix=True)
+
+
 def execute(command, from_tty=False, to_string=False):
     _state.executed.append(command)
     return '' if to_string else None
